@@ -226,6 +226,8 @@ Section RemoveProofs.
   Definition whole_r (s : rstate) : tree :=
     match s with
     | RDown fs d cur => plug_r fs (fst (fst (remove d k (view cur))))
+    | RPre0 fs d c lbl lf l r | RPre1 fs d c lbl lf l r =>
+        plug_r fs (fst (fst (remove d k (Node lbl (lf_view lf) (view l) (view r)))))
     | RRet fs res => plug_r fs (view res)
     | RCol0 fs lbl lf l r | RCol1 fs lbl lf l r _ => plug_r fs (cct lbl (lf_view lf) (view l) (view r))
     | RDone res => view res
@@ -235,6 +237,8 @@ Section RemoveProofs.
     match s with
     | RCol0 _ _ lf _ _ => not_ref lf
     | RCol1 _ _ lf l _ lp => not_ref lf /\ lp = present_t (view l)
+    | RPre0 _ d _ lbl lf _ _ | RPre1 _ d _ lbl lf _ _ =>
+        not_ref lf /\ (length (bits_of k) <? d + length lbl)%nat = false
     | _ => True
     end.
 
@@ -259,26 +263,34 @@ Section RemoveProofs.
 
   Lemma rstep_whole s : inv_r s -> whole_r (rstep k s) = whole_r s /\ inv_r (rstep k s).
   Proof.
-    destruct s as [fs d cur|fs res|fs lbl lf l r|fs lbl lf l r lp|res]; cbn [rstep]; intros [Hok Hs].
-    - (* descent *)
+    destruct s as [fs d cur|fs d c lbl lf l r|fs d c lbl lf l r|fs res|fs lbl lf l r|fs lbl lf l r lp|res];
+      cbn [rstep]; intros [Hok Hs].
+    - (* dereference the node *)
       unfold rdown_step.
       replace (whole_r (RDown fs d cur)) with (plug_r fs (fst (fst (remove d k (view (deref1 cur))))))
         by (cbn [whole_r]; now rewrite view_deref1).
       destruct (deref1 cur) as [|t|c0 k0 v0|c lbl lf l r] eqn:E;
         try (cbn [whole_r rframes inv_r]; rewrite view_full; split; [reflexivity|split; [exact Hok|exact I]]).
       pose proof (deref1_lf _ _ _ _ _ _ E) as Hnr.
-      rewrite (view_node_nr _ _ _ _ _ Hnr), remove_node. cbv zeta.
-      destruct (length (bits_of k) <? d + length lbl)%nat.
-      + cbn [whole_r inv_r rframes]. rewrite <- (view_deref1 cur), E, (view_node_nr _ _ _ _ _ Hnr).
+      rewrite (view_node_nr _ _ _ _ _ Hnr).
+      destruct (length (bits_of k) <? d + length lbl)%nat eqn:Esh.
+      + cbn [whole_r inv_r rframes]. rewrite remove_node. cbv zeta. rewrite Esh.
+        rewrite <- (view_deref1 cur), E, (view_node_nr _ _ _ _ _ Hnr).
         split; [reflexivity|split; [exact Hok|exact I]].
-      + destruct (length (bits_of k) =? d + length lbl)%nat.
-        * cbn [whole_r inv_r rframes]. split; [|split; [exact Hok|]].
-          -- f_equal. f_equal. destruct lf as [| |c1 k1 v1|]; try reflexivity. cbn [lf_view].
-             destruct (bytes_eqb k1 k); reflexivity.
-          -- destruct lf as [| |c1 k1 v1|]; try exact I; try contradiction. destruct (bytes_eqb k1 k); exact I.
-        * destruct (bit (bits_of k) (d + length lbl));
-            cbn [whole_r inv_r rframes plug_r]; unfold frame_view_r; cbn [f_lbl f_lf f_right f_sib];
-            (split; [reflexivity|split; [constructor; [split; [reflexivity|exact Hnr]|exact Hok]|exact I]]).
+      + cbn [whole_r inv_r rframes]. split; [reflexivity|split; [exact Hok|split; [exact Hnr|exact Esh]]].
+    - (* pre-dereference of n.Left *)
+      cbn [whole_r inv_r rframes] in *. split; [reflexivity|split; [exact Hok|exact Hs]].
+    - (* pre-dereference of n.Right, then the recursive call *)
+      cbn [whole_r inv_r rframes] in *. destruct Hs as [Hnr Esh]. unfold rdescend.
+      rewrite remove_node. cbv zeta. rewrite Esh.
+      destruct (length (bits_of k) =? d + length lbl)%nat.
+      + cbn [whole_r inv_r rframes]. split; [|split; [exact Hok|]].
+        * f_equal. f_equal. destruct lf as [| |c1 k1 v1|]; try reflexivity. cbn [lf_view].
+          destruct (bytes_eqb k1 k); reflexivity.
+        * destruct lf as [| |c1 k1 v1|]; try exact I; try contradiction. destruct (bytes_eqb k1 k); exact I.
+      + destruct (bit (bits_of k) (d + length lbl));
+          cbn [whole_r inv_r rframes plug_r]; unfold frame_view_r; cbn [f_lbl f_lf f_right f_sib];
+          (split; [reflexivity|split; [constructor; [split; [reflexivity|exact Hnr]|exact Hok]|exact I]]).
     - (* return to the parent frame *)
       destruct fs as [|f fs']; cbn [whole_r inv_r rframes] in *;
         [split; [reflexivity|split; [constructor|exact I]]|].
@@ -298,23 +310,21 @@ Section RemoveProofs.
   Proof.
     intros Hi Hl. destruct e as [|p'|p'|i p'|p'].
     - now apply rstep_whole.
-    - destruct s as [fs d cur|fs res|fs lbl lf l r|fs lbl lf l r lp|res]; cbn [rapply rlegal] in *; try contradiction.
-      + pose proof (evicts_view _ _ Hl) as Hv. destruct Hi as [Hok Hs]. cbn [whole_r inv_r rframes] in *.
-        rewrite ?Hv. repeat split; auto; try (rewrite ?Hv; assumption).
-      + pose proof (evicts_view _ _ Hl) as Hv. destruct Hi as [Hok [Hn Hp]]. cbn [whole_r inv_r rframes] in *.
-        rewrite ?Hv. repeat split; auto; try (rewrite ?Hv; assumption).
-    - destruct s as [fs d cur|fs res|fs lbl lf l r|fs lbl lf l r lp|res]; cbn [rapply rlegal] in *; try contradiction.
-      + pose proof (evicts_view _ _ Hl) as Hv. destruct Hi as [Hok Hs]. cbn [whole_r inv_r rframes] in *.
-        rewrite ?Hv. repeat split; auto; try (rewrite ?Hv; assumption).
-      + pose proof (evicts_view _ _ Hl) as Hv. destruct Hi as [Hok [Hn Hp]]. cbn [whole_r inv_r rframes] in *.
-        rewrite ?Hv. repeat split; auto; try (rewrite ?Hv; assumption).
+    - destruct s; cbn [rapply rlegal] in *; try contradiction;
+        pose proof (evicts_view _ _ Hl) as Hv; destruct Hi as [Hok Hs];
+        cbn [whole_r inv_r rframes] in *; rewrite ?Hv; repeat split; try tauto;
+        try (rewrite ?Hv; tauto).
+    - destruct s; cbn [rapply rlegal] in *; try contradiction;
+        pose proof (evicts_view _ _ Hl) as Hv; destruct Hi as [Hok Hs];
+        cbn [whole_r inv_r rframes] in *; rewrite ?Hv; repeat split; try tauto;
+        try (rewrite ?Hv; tauto).
     - assert (rapply k s (REvictSib i p') = rwith_frames s (set_sib (rframes s) i p')) as -> by (destruct s; reflexivity).
       assert (rlegal evicts s (REvictSib i p') -> exists f, nth_error (rframes s) i = Some f /\ evicts (f_sib f) p') as HL
         by (destruct s; cbn [rlegal]; auto).
       destruct (HL Hl) as (f & Hn & He). pose proof (evicts_view _ _ He) as Hv.
       split; [|apply frames_ok_rwith; [apply frames_ok_set_sib; apply Hi|exact Hi]].
       destruct s; cbn [rwith_frames whole_r rframes] in *; try reflexivity; eapply plug_r_set_sib; eauto.
-    - destruct s as [fs d cur|fs res|fs lbl lf l r|fs lbl lf l r lp|res]; cbn [rapply rlegal] in *; try contradiction.
+    - destruct s; cbn [rapply rlegal] in *; try contradiction.
       destruct Hi as [Hok Hs]. cbn [whole_r inv_r rframes] in *. rewrite (evicts_view _ _ Hl). repeat split; auto.
   Qed.
 
@@ -352,13 +362,13 @@ Definition evict_own_leaf (p : ptree) : ptree :=
   end.
 Definition f1t_steps (n : nat) : list revent := repeat RStep n.
 (* the state in which the root has dereferenced n.Left and not yet n.Right *)
-Definition f1t_mid : rstate := rrun [128; 1] (RDown [] 0 f1t_tree) (f1t_steps 8).
+Definition f1t_mid : rstate := rrun [128; 1] (RDown [] 0 f1t_tree) (f1t_steps 12).
 Definition f1t_evicted : ptree :=
   match f1t_mid with RCol1 _ _ _ _ r _ => evict_own_leaf r | _ => PNil end.
 
 Theorem eviction_f1_transient_refuted :
   (* the fault-free operation changes nothing (the key is absent) *)
-  (exists res, rrun [128; 1] (RDown [] 0 f1t_tree) (f1t_steps 10) = RDone res /\
+  (exists res, rrun [128; 1] (RDown [] 0 f1t_tree) (f1t_steps 14) = RDone res /\
                contents (view res) = [([0; 1; 0], [2]); ([128], [1]); ([128; 255; 1; 128], [3])]) /\
   (* the eviction is a legal cache event in that state ... *)
   (exists fs lbl lf l r lp, f1t_mid = RCol1 fs lbl lf l r lp /\ evict r f1t_evicted) /\
